@@ -115,6 +115,27 @@ func budgetOracle(rep *Report, sc Scenario, obs []StepObs, distinct map[string]b
 		if cmd.Kind == "set" && ob.Ending == "eof" {
 			p := 1184 - 71 - len(cmd.Key) - 16
 			want := (len(cmd.Data) + p - 1) / p
+			// the data entries are exactly <key>-0 … <key>-(n-1): the size arithmetic reserves room for
+			// precisely this suffix (4 bytes: '-' and up to 3 digits)
+			gotKeys := map[string]int{}
+			for _, e := range ob.L1 {
+				if (e.Op == "set" || e.Op == "add" || e.Op == "replace") && string(e.Key) != string(cmd.Key)+"-meta" {
+					gotKeys[string(e.Key)]++
+				}
+			}
+			for i := 0; i < want && chunkSets == want; i++ {
+				k := fmt.Sprintf("%s-%d", cmd.Key, i)
+				if gotKeys[k] != 1 {
+					var have []string
+					for g := range gotKeys {
+						have = append(have, g[len(g)-minInt(len(g), 8):])
+					}
+					sortStrings(have)
+					rep.Violations = append(rep.Violations, Violation{What: fmt.Sprintf("chunk %d of a %d-chunk value was not written under the key <key>-%d (the backend keys end in %v): the entry does not fit the size the slab budget was computed for", i, want, i, have),
+						Signature: "chunk-key-shape", Replay: map[string]interface{}{"scenario": describeScenario(sc), "step": i}})
+					break
+				}
+			}
 			if chunkSets != want {
 				rep.Violations = append(rep.Violations, Violation{What: fmt.Sprintf("%d chunk entries written for %d bytes (payload %d), expected %d", chunkSets, len(cmd.Data), p, want),
 					Signature: "chunk-count", Replay: map[string]interface{}{"scenario": describeScenario(sc), "step": i}})
